@@ -33,6 +33,20 @@ FileFails(lines, eofFormatted) ==
   ELSE (IF ~lines.ends_with_newline THEN {"no_final_newline"} ELSE {}) \cup
        (IF lines.trailing_newlines > 1 THEN {"extra_final_newlines"} ELSE {})
 
+(***************************************************************************)
+(* Extra layout invariants (specification growth beyond the listed          *)
+(* properties; reported as notes, never as violations of C10): no trailing  *)
+(* whitespace on code lines, blank lines carry no whitespace, at most one    *)
+(* consecutive blank line, no blank line at the start of the file.          *)
+(***************************************************************************)
+ExtraFails(lines) ==
+  UNION { IF c.exempt \/ c.ind_mask THEN {}
+          ELSE (IF c.trailing_ws THEN {"trailing_whitespace"} ELSE {}) \cup
+               (IF c.blank /\ (c.tabs + c.spaces + c.other) > 0 THEN {"whitespace_on_blank_line"} ELSE {})
+        : c \in {lines.classes[i] : i \in DOMAIN lines.classes} } \cup
+  (IF lines.max_blank_run > 1 THEN {"two_blank_lines"} ELSE {}) \cup
+  (IF lines.starts_blank THEN {"starts_with_blank_line"} ELSE {})
+
 WhitespaceFails(lines, cfg, eofFormatted) ==
   UNION {LineClassFails(lines.classes[i], cfg) : i \in DOMAIN lines.classes} \cup FileFails(lines, eofFormatted)
 =============================================================================
